@@ -2,7 +2,7 @@
 //!
 //! `chanflow gen <outdir> <ncases> <maxsteps>` (env `VERIF_SEED`, default 1) writes
 //!   cases.txt    `new <seed> <cap> <same>` then one step per line (read by extract/credit_driver.ml)
-//!   impl.txt     line-aligned: `<obs> | ready=.. | sb=.. rb=.. bs=.. br=.. | cs=.. cr=..`
+//!   impl.txt     line-aligned: `<obs> | sb=.. rb=.. bs=.. br=.. | cs=.. cr=..`
 //!   monitor.txt  property violations seen on the implementation alone:
 //!                `<class>\t<case seed> <cap> <same> <maxsteps>\t<detail>` (empty when clean)
 //!   stats.json   measured distribution
@@ -17,15 +17,20 @@
 //! client->broker messages wait in `up` until the harness releases the head (`brokerS`/`brokerR`),
 //! broker->client messages wait in `down` until the harness grants one permit (`clientS`/
 //! `clientR`).  The applications are not tasks: the harness calls the real `Sender`/`Receiver`
-//! methods itself (`poll_send_ready` + `start_send_item`, `poll_next_item`, `poll_close`, drop) and
-//! settles.  After every step the four held queues, the sender's readiness and the two close
-//! futures are printed; the extracted Coq model (Proto/Credit.v) prints the same line.
+//! methods itself and settles.  Steps: `send <v>` (`poll_send_ready`, then `start_send_item`),
+//! `readyS` (`poll_send_ready` alone), `probeS` (`poll_receiver_closed`, the select! companion of
+//! send: it drains the SAME `capacity_added` stream), `recv` (`poll_next_item`), `closeS`/`closeR`
+//! (`poll_close`), `dropS`/`dropR`, `brokerS`/`brokerR`, `clientS`/`clientR`.  The Sender is never
+//! polled behind the schedule's back (only a started close future is re-polled for `cs`/`cr`).
+//! After every step the four held queues and the two close futures are printed; the extracted Coq
+//! model (Proto/Credit.v) prints the same line.
 //!
 //! Monitor classes (Rust side only): ORDER (received is a prefix of sent at every recv), COMPLETE
 //! (receiver never closed/dropped => after the drain received == sent; else a prefix), CUT
-//! (`ready=err` / send -> err while neither application closed or dropped its end), CLOSE-ERR (a
-//! close future resolved to Err), CAPACITY (AddChannelCapacity 0 on the wire), STALL (extra: after
-//! the drain, nobody closed, nothing in flight, but the sender has no credit), and the abort classes
+//! (`send`/`readyS` -> err while neither application closed or dropped its end), CLOSE-ERR (a
+//! close future resolved to Err), CAPACITY (AddChannelCapacity 0 on the wire), STALL (after
+//! the drain, nobody closed, nothing in flight, but `readyS` is not ok), STARVE (3 further rounds of
+//! `readyS`; `send`; drain: every `readyS` must be ok), and the abort classes
 //! PANIC <file:line> / RUN <kind> / HANG <tasks> / BUDGET / LINK / FOREIGN-MSG / START-SEND /
 //! RECV-ERR / SETUP.  An aborted case stops emitting lines (cases.txt and impl.txt stay aligned).
 //! Env CHANFLOW_FAULT=dup-item|drop-item|drop-credit|panic is a SELF-TEST switch that disturbs one
@@ -416,7 +421,9 @@ const CAPS: [(u32, u32); 13] = [
     (4294967295, 3),
     (2147483648, 3),
 ];
-const MOODS: [&str; 6] = ["producer", "consumer", "balanced", "early_close_sender", "early_close_receiver", "no_close"];
+const MOODS: [&str; 7] = ["producer", "consumer", "balanced", "early_close_sender", "early_close_receiver", "no_close", "select"];
+/// 2 of 8 slots are the select!-pattern (producer polls poll_receiver_closed before almost every send)
+const MOOD_SLOTS: [usize; 8] = [0, 1, 2, 3, 4, 5, 6, 6];
 const TRANSPORTS: [&str; 4] = ["unbounded", "bounded1", "bounded2", "bounded4"];
 
 #[derive(Clone, Debug)]
@@ -450,7 +457,7 @@ fn params(seed: u64, maxsteps: usize, r: &mut Rng) -> Params {
     let rebind = !same || r.below(2) == 0;
     let lo = 20.min(maxsteps.max(1));
     let nsteps = r.range(lo as u64, maxsteps.max(1) as u64) as usize;
-    let mood = r.below(MOODS.len() as u64) as usize;
+    let mood = MOOD_SLOTS[r.below(MOOD_SLOTS.len() as u64) as usize];
     let close_at = r.below((nsteps / 2 + 1) as u64) as usize;
     Params { seed, maxsteps, cap, same, transport, order_a, rebind, nsteps, mood, close_at }
 }
@@ -458,6 +465,8 @@ fn params(seed: u64, maxsteps: usize, r: &mut Rng) -> Params {
 #[derive(Clone, Copy, PartialEq, Eq, Debug, Hash)]
 enum Step {
     Send,
+    ReadyS,
+    ProbeS,
     Recv,
     CloseS,
     CloseR,
@@ -473,6 +482,8 @@ impl Step {
     fn name(self) -> &'static str {
         match self {
             Step::Send => "send",
+            Step::ReadyS => "readyS",
+            Step::ProbeS => "probeS",
             Step::Recv => "recv",
             Step::CloseS => "closeS",
             Step::CloseR => "closeR",
@@ -779,7 +790,7 @@ impl World {
 
     fn enabled(&self, s: Step) -> bool {
         match s {
-            Step::Send | Step::CloseS | Step::DropS => self.sender.is_some(),
+            Step::Send | Step::ReadyS | Step::ProbeS | Step::CloseS | Step::DropS => self.sender.is_some(),
             Step::Recv | Step::CloseR | Step::DropR => self.receiver.is_some(),
             Step::BrokerS => self.head_up(Link::S),
             Step::BrokerR => self.head_up(Link::R),
@@ -853,17 +864,6 @@ impl World {
             Some(false) => "err",
         })
     }
-
-    fn ready(&mut self) -> Result<&'static str, Failure> {
-        let Some(s) = self.sender.as_mut() else { return Ok("gone") };
-        let w = noop_waker();
-        let mut cx = Context::from_waker(&w);
-        Ok(match guarded("Sender::poll_send_ready", || s.poll_send_ready(&mut cx))? {
-            Poll::Ready(Ok(())) => "ok",
-            Poll::Ready(Err(_)) => "err",
-            Poll::Pending => "pend",
-        })
-    }
 }
 
 fn join(v: &[String]) -> String {
@@ -883,21 +883,23 @@ struct Runner {
     w: World,
     out: CaseOut,
     next_item: u32,
-    last_ready: &'static str,
+    /// what the harness believes poll_send_ready would say (from the last send/readyS observation;
+    /// a delivered AddChannelCapacity turns "pend" into "ok"); only steers the generator
+    hint: &'static str,
     recv_stale: bool,
+    /// AddChannelCapacity messages handed to the sender's client since the last poll of the Sender
+    adds_pending: u32,
+    /// select mood: poll_receiver_closed was polled since the last send / a burst of sends follows
+    probed: bool,
+    burst: bool,
 }
 
 impl Runner {
     /// the state line after a step; also the monitors that look at it
     fn line(&mut self, obs: &str) -> Result<String, Failure> {
-        let ready = self.w.ready()?;
         let l = self.w.links()?;
         let cs = self.w.close_state(Link::S)?;
         let cr = self.w.close_state(Link::R)?;
-        self.last_ready = ready;
-        if ready == "err" && !self.out.app_closed[0] && !self.out.app_closed[1] {
-            self.out.bad("CUT", format!("ready=err after step {} although neither application closed its end", self.out.lines.len()));
-        }
         for (e, st) in [cs, cr].iter().enumerate() {
             if *st == "err" {
                 self.out.bad("CLOSE-ERR", format!("the {} close future resolved to Err", if e == 0 { "sender's" } else { "receiver's" }));
@@ -911,7 +913,7 @@ impl Runner {
         }
         let fl = (self.out.sent.len() - self.out.got.len().min(self.out.sent.len())) as u64;
         self.out.max_in_flight = self.out.max_in_flight.max(fl);
-        Ok(format!("{obs} | ready={ready} | sb={} rb={} bs={} br={} | cs={cs} cr={cr}", join(&l[0]), join(&l[1]), join(&l[2]), join(&l[3])))
+        Ok(format!("{obs} | sb={} rb={} bs={} br={} | cs={cs} cr={cr}", join(&l[0]), join(&l[1]), join(&l[2]), join(&l[3])))
     }
 
     /// perform one step on the real code; returns (case line, observation)
@@ -934,10 +936,13 @@ impl Runner {
                         }
                         self.out.sent.push(v);
                         self.out.op("send_sent");
+                        self.hint = "ok";
                         obs = "sent".into();
                     }
                     Poll::Ready(Err(_)) => {
                         self.out.op("send_err");
+                        self.hint = "err";
+                        self.burst = false;
                         obs = "err".into();
                         if !self.out.app_closed[0] && !self.out.app_closed[1] {
                             self.out.bad("CUT", format!("send {v}: poll_send_ready = Err although neither application closed its end"));
@@ -945,9 +950,51 @@ impl Runner {
                     }
                     Poll::Pending => {
                         self.out.op("send_pend");
+                        self.hint = "pend";
+                        self.burst = false;
                         obs = "pend".into();
                     }
                 }
+                self.adds_pending = 0;
+                self.probed = false;
+            }
+            Step::ReadyS => {
+                let sd = self.w.sender.as_mut().unwrap();
+                let r = match guarded("Sender::poll_send_ready", || sd.poll_send_ready(&mut cx))? {
+                    Poll::Ready(Ok(())) => "ok",
+                    Poll::Ready(Err(_)) => "err",
+                    Poll::Pending => "pend",
+                };
+                self.out.op(match r {
+                    "ok" => "readyS_ok",
+                    "err" => "readyS_err",
+                    _ => "readyS_pend",
+                });
+                if r == "err" && !self.out.app_closed[0] && !self.out.app_closed[1] {
+                    self.out.bad("CUT", "readyS: poll_send_ready = Err although neither application closed its end");
+                }
+                self.hint = r;
+                self.adds_pending = 0;
+                obs = r.into();
+            }
+            Step::ProbeS => {
+                let sd = self.w.sender.as_mut().unwrap();
+                match guarded("Sender::poll_receiver_closed", || sd.poll_receiver_closed(&mut cx))? {
+                    Poll::Ready(()) => {
+                        self.out.op("probeS_closed");
+                        obs = "closed".into();
+                    }
+                    Poll::Pending => {
+                        self.out.op("probeS_pend");
+                        obs = "pend".into();
+                    }
+                }
+                if self.adds_pending > 0 {
+                    self.out.op("probe_absorbed");
+                    self.burst = true;
+                }
+                self.adds_pending = 0;
+                self.probed = true;
             }
             Step::Recv => {
                 let rv = self.w.receiver.as_mut().unwrap();
@@ -1005,6 +1052,14 @@ impl Runner {
             Step::ClientS | Step::ClientR => {
                 if s == Step::ClientR {
                     self.recv_stale = false;
+                } else {
+                    let gi = self.w.gate_of(Link::S);
+                    if matches!(self.w.gates[gi].borrow().down.front(), Some(Message::AddChannelCapacity(_))) {
+                        self.adds_pending += 1;
+                        if self.hint == "pend" {
+                            self.hint = "ok";
+                        }
+                    }
                 }
                 self.w.client_step(if s == Step::ClientS { Link::S } else { Link::R })?;
                 self.out.op(s.name());
@@ -1043,21 +1098,47 @@ impl Runner {
         let (ws, wr, wm) = match mood {
             0 => (8, 1, 2),
             1 => (2, 6, 3),
+            6 => (5, 4, 3),
             _ => (4, 4, 3),
         };
         let mut opts: Vec<(Step, u32)> = vec![];
         // `fresh`: some step that can change the state is enabled
         let mut fresh = false;
         if w.sender.is_some() {
-            let k = if w.close_started[0] || self.last_ready == "err" {
-                1
-            } else if self.last_ready == "pend" {
-                (ws / 3).max(1)
+            let dead = w.close_started[0] || self.hint == "err";
+            if mood == 6 && !dead {
+                // select! pattern: an announcement sitting in capacity_added is (mostly) met by
+                // poll_receiver_closed first; then the producer sends until it runs dry
+                if self.adds_pending > 0 && self.r.below(10) < 8 {
+                    return Some(Step::ProbeS);
+                }
+                let k = if self.burst && self.hint != "pend" {
+                    fresh = true;
+                    12
+                } else if self.hint == "pend" {
+                    2
+                } else {
+                    fresh = true;
+                    ws
+                };
+                let act = if self.burst || self.probed || self.r.below(10) == 0 { Step::Send } else { Step::ProbeS };
+                opts.push((act, k));
             } else {
-                fresh = true;
-                ws
-            };
-            opts.push((Step::Send, k));
+                let k = if dead {
+                    1
+                } else if self.hint == "pend" {
+                    (ws / 3).max(1)
+                } else {
+                    fresh = true;
+                    ws
+                };
+                opts.push((Step::Send, k));
+                // sprinkle the two bare polls at a low rate
+                if self.r.below(3) == 0 {
+                    opts.push((Step::ReadyS, 1));
+                    opts.push((Step::ProbeS, 1));
+                }
+            }
         }
         if w.receiver.is_some() {
             fresh |= !self.recv_stale;
@@ -1110,43 +1191,24 @@ impl Runner {
             let Some(s) = self.choose(idx) else { break };
             self.step(s)?;
         }
-        // drain: everything held is released/delivered in random order, the receiver reads until
-        // pend/end, until nothing is held
         let mut guard = 0u32;
-        loop {
-            loop {
-                let en: Vec<Step> = [Step::BrokerS, Step::BrokerR, Step::ClientS, Step::ClientR].into_iter().filter(|s| self.w.enabled(*s)).collect();
-                if en.is_empty() {
-                    break;
+        self.drain(&mut guard)?;
+        // STALL / STARVE: nobody closed, nothing in flight => the sender must have credit, and it must
+        // keep getting credit when it goes on sending (all of these are ordinary steps)
+        if !self.out.app_closed[0] && !self.out.app_closed[1] {
+            let obs = self.step(Step::ReadyS)?;
+            if obs != "ok" {
+                self.out.bad("STALL", format!("after the drain nothing is in flight and neither end was closed, but poll_send_ready = {obs} (sent {}, received {})", self.out.sent.len(), self.out.got.len()));
+            }
+            for round in 0..3 {
+                let obs = self.step(Step::ReadyS)?;
+                if obs == "ok" {
+                    self.step(Step::Send)?;
+                } else {
+                    self.out.bad("STARVE", format!("round {round} after the drain: nothing in flight, neither end closed, but poll_send_ready = {obs} (sent {}, received {})", self.out.sent.len(), self.out.got.len()));
                 }
-                let s = en[self.r.below(en.len() as u64) as usize];
-                self.step(s)?;
-                guard += 1;
-                if guard > 20_000 {
-                    return fail("BUDGET", "drain phase did not terminate within 20000 steps");
-                }
+                self.drain(&mut guard)?;
             }
-            if self.w.held() {
-                // something is held but no step is enabled: the head of a queue is unclassifiable
-                self.w.links()?;
-                return fail("LINK", "held messages but no enabled step");
-            }
-            if self.w.receiver.is_some() {
-                loop {
-                    let obs = self.step(Step::Recv)?;
-                    guard += 1;
-                    if !obs.starts_with("item:") || guard > 20_000 {
-                        break;
-                    }
-                }
-            }
-            if !self.w.held() {
-                break;
-            }
-        }
-        // STALL (extra): nothing in flight, nobody closed, yet the sender has no credit
-        if !self.out.app_closed[0] && !self.out.app_closed[1] && self.last_ready != "ok" {
-            self.out.bad("STALL", format!("after the drain nothing is in flight and neither end was closed, but ready={}", self.last_ready));
         }
         // COMPLETE
         if !self.out.app_closed[1] {
@@ -1160,6 +1222,42 @@ impl Runner {
             }
         }
         self.teardown()
+    }
+
+    /// everything held is released/delivered in random order, the receiver reads until pend/end,
+    /// until nothing is held (the Sender is not polled)
+    fn drain(&mut self, guard: &mut u32) -> Result<(), Failure> {
+        loop {
+            loop {
+                let en: Vec<Step> = [Step::BrokerS, Step::BrokerR, Step::ClientS, Step::ClientR].into_iter().filter(|s| self.w.enabled(*s)).collect();
+                if en.is_empty() {
+                    break;
+                }
+                let s = en[self.r.below(en.len() as u64) as usize];
+                self.step(s)?;
+                *guard += 1;
+                if *guard > 20_000 {
+                    return fail("BUDGET", "drain phase did not terminate within 20000 steps");
+                }
+            }
+            if self.w.held() {
+                // something is held but no step is enabled: the head of a queue is unclassifiable
+                self.w.links()?;
+                return fail("LINK", "held messages but no enabled step");
+            }
+            if self.w.receiver.is_some() {
+                loop {
+                    let obs = self.step(Step::Recv)?;
+                    *guard += 1;
+                    if !obs.starts_with("item:") || *guard > 20_000 {
+                        break;
+                    }
+                }
+            }
+            if !self.w.held() {
+                return Ok(());
+            }
+        }
     }
 
     fn teardown(&mut self) -> Result<(), Failure> {
@@ -1218,7 +1316,7 @@ fn run_case_inner(seed: u64, maxsteps: usize) -> (Params, CaseOut) {
             return (p, out);
         }
     };
-    let mut run = Runner { p: p.clone(), r, w, out, next_item: 1, last_ready: "ok", recv_stale: false };
+    let mut run = Runner { p: p.clone(), r, w, out, next_item: 1, hint: "ok", recv_stale: false, adds_pending: 0, probed: false, burst: false };
     let res = run.body();
     for g in &run.w.gates {
         let st = g.borrow();
@@ -1333,7 +1431,7 @@ fn main() {
             let mut fi = open("impl.txt");
             let mut fm = open("monitor.txt");
             let mut ops: BTreeMap<String, u64> = BTreeMap::new();
-            for k in ["send_sent", "send_pend", "send_err", "recv_item", "recv_pend", "recv_end", "closeS", "closeR", "dropS", "dropR", "brokerS", "brokerR", "clientS", "clientR"] {
+            for k in ["send_sent", "send_pend", "send_err", "readyS_ok", "readyS_pend", "readyS_err", "probeS_closed", "probeS_pend", "probe_absorbed", "recv_item", "recv_pend", "recv_end", "closeS", "closeR", "dropS", "dropR", "brokerS", "brokerR", "clientS", "clientR"] {
                 ops.insert(k.into(), 0);
             }
             let mut caps: BTreeMap<u32, u64> = BTreeMap::new();
@@ -1418,6 +1516,7 @@ fn main() {
             writeln!(s, "  \"grant_values\": {},", json_map(&grant_values)).unwrap();
             writeln!(s, "  \"broker_replenish_seen\": {replenish},").unwrap();
             writeln!(s, "  \"max_in_flight\": {max_in_flight},").unwrap();
+            writeln!(s, "  \"probe_absorbed\": {},", ops.get("probe_absorbed").copied().unwrap_or(0)).unwrap();
             writeln!(s, "  \"task_polls\": {polls},").unwrap();
             writeln!(s, "  \"aborted_cases\": {aborted},").unwrap();
             writeln!(s, "  \"monitor_failures\": {nfails},").unwrap();
